@@ -15,6 +15,7 @@
 From Coq Require Import List NArith ZArith Bool Arith. Import ListNotations.
 From WV Require Import Gen.Ops Model.Common Model.IR Model.Arena Model.Traversal Model.EmitFn Model.EmitSpec Model.Locals
                        Model.ParseFn Model.ModuleM Model.ParseM Model.EmitM Model.GC.
+From WV Require Import Proofs.GcDeclare.
 From WV Require Import Proofs.IndexMaps Proofs.Totality.
 From WV Require Proofs.EmitFn.
 Local Open Scope nat_scope.
@@ -23,7 +24,7 @@ Theorem c02_parsed_module_closed cf ver w s : parseM cf ver w = POk s -> closed 
 Proof. exact (parseM_closed cf ver w s). Qed.
 
 Theorem c02_gc_keeps_closed cf ver w s m : parseM cf ver w = POk s -> gc (ps_m s) = Ok m -> closed m /\ no_func_offsets m.
-Proof. exact (gc_closed_after_parse cf ver w s m). Qed.
+Proof. exact (gc_closed_after_parse_full cf ver w s m). Qed.
 
 Theorem c02_closed_means_every_reference_indexed m fs : closed m -> used_local_functions m = Ok fs -> emit_closed m fs.
 Proof. exact (closed_emit_closed m fs). Qed.
@@ -38,7 +39,7 @@ Theorem c02_emit_total_after_gc cf ver w s m ilen dw fs :
   parseM cf ver w = POk s -> gc (ps_m s) = Ok m -> used_local_functions m = Ok fs ->
   (forall x, final_maps m fs x -> forall id lf, In (id, lf) fs -> body_ok m x ilen lf) ->
   exists e, emitM m ilen dw = Ok e.
-Proof. exact (emit_total_after_gc_bodies cf ver w s m ilen dw fs). Qed.
+Proof. exact (emit_total_after_gc_bodies_full cf ver w s m ilen dw fs). Qed.
 
 Theorem c02_names_never_panic m fs x x' efs :
   closed m -> used_local_functions m = Ok fs -> final_maps m fs x ->
@@ -49,7 +50,7 @@ Proof. exact (emit_names_closed m fs x x' efs). Qed.
 Theorem c02_gc_corner_refuted :
   exists m m', closed m /\ gc m = Ok m' /\ ~ closed m' /\
                (exists e, emitM m (fun _ => 0%N) [] = Ok e) /\ emitM m' (fun _ => 0%N) [] = Panic.
-Proof. exact gc_closed_refuted. Qed.
+Proof. exact gc_closed_refuted_full. Qed.
 
 Theorem c02_body_emission_total : forall cx ar t p0, Den ar t -> scoped (ex_id2i cx) [] t ->
   exists st', emit_events cx ar (init_estate p0) (events false t) = Ok st' /\ blocks st' = [] /\ kinds st' = [].
@@ -74,7 +75,7 @@ Theorem c02_emit_total_after_gc_no_body_premise :
          valid_stream w ->
          parseM cf ver w = POk s ->
          refs_in_range w (ps_ids s) -> gc (ps_m s) = Ok m' -> exists e : emitted, emitM m' ilen dw = Ok e.
-Proof. exact emit_total_after_gc_final_partial. Qed.
+Proof. exact emit_total_after_gc_final_partial_full. Qed.
 
 Theorem c02_index_bounds_needed :
   exists w : wmod,
